@@ -458,6 +458,30 @@ def lattice_points(ctx):
     return out
 
 
+def large_case(case):
+    """long chains (batched / chunked processing is invisible on 5 poses)"""
+    n = case["n"]
+    seq_e = [(3 * k + k // 7) % len(MOTIONS) for k in range(n - 1)]
+    seq_r = [(5 * k + 1 + k // 11) % len(MOTIONS) for k in range(n - 1)]
+    Pe, Pr = chain(seq_e), chain(seq_r)
+    return judge(Pr, Pe, case["rel"], case["delta"], case["unit"],
+                 case["all_pairs"], case["from_ref"], case["mode"])
+
+
+def shard_large(cases):
+    acc = Acc()
+    for case in cases:
+        msgs, outcome = large_case(case)
+        acc.count("evaluations")
+        acc.count("transitions")
+        acc.count("nontrivial")
+        acc.outcome("large:" + outcome)
+        if msgs:
+            acc.violation("large", "%s: %s" % (case, "; ".join(msgs[:2])),
+                          case, {"kind": "large"})
+    return acc
+
+
 def run(ctx):
     maxlen = ctx.pick(3, 4)
     seqs = [s for k in range(1, maxlen + 1)
@@ -465,6 +489,13 @@ def run(ctx):
     acc = pmap_acc(ctx, __name__, "shard_core",
                    [(s, ctx.thorough) for s in shard(seqs, 64)])
     acc.merge(unequal_part())
+    large = [{"n": n, "rel": rel, "unit": u, "delta": d, "all_pairs": ap,
+              "from_ref": False, "mode": ("se3", "quat")[n % 2]}
+             for n in ctx.pick((257, 300, 514), (257, 300, 514, 1025, 1300))
+             for rel in RELS for (u, d, ap) in (("f", 1, False),
+                                                ("f", 2, True),
+                                                ("m", 3.0, False))]
+    acc.merge(pmap_acc(ctx, __name__, "shard_large", shard(large, 16)))
     pts = lattice_points(ctx)
     acc.merge(pmap_acc(ctx, __name__, "shard_points",
                        shard(pts, ctx.jobs * 2)))
@@ -479,6 +510,8 @@ def run(ctx):
         "pair end indices, ratio skips zero reference distances "
         "consistently; drift independence under two different rigid motions "
         "and zero for identical relative motions; unequal lengths refused; "
+        "chains of 257 / 300 / 514 poses (thorough: up to 1300) x relations x "
+        "3 deltas; "
         "evo_rpe lattice (%d points) vs the reference pipeline. non-trivial = "
         "cases with at least one selected pair" %
         (maxlen, "8 (4 of 8 for 4 steps)" if ctx.thorough else "4 of 8 (alternating)", len(pts)))
@@ -497,6 +530,8 @@ def replay(part, case):
         a = shard_core(([tuple(case["seq"])], True))
         return [v["msg"] for v in a.violations
                 if all(v["case"].get(k) == case.get(k) for k in case)]
+    if part == "large":
+        return large_case(case)[0]
     if part == "evo_rpe":
         for k in ("motion_filter", "crop", "delta"):
             if case.get(k):
